@@ -18,13 +18,25 @@ Clause → theorem
   sample is the driving i.i.d. stream                                  sample_rosenblatt_is_stream
   (n, n_dim) shape                                                     sample_shape
   dimension i consumes stream[i·n … (i+1)·n), row j uses stream[i·n+j] stream_segments
-  same stream ⇒ same sample (reproducibility given the generator)      same_stream_same_sample
+  the sample is determined by the n·n_dim stream values that are consumed
+  (two streams that agree on them give the same rows)                  stream_prefix_determines_rows,
+                                                                       stream_prefix_determines_sample
+  definitional remark, NOT a reproducibility result: `sampleRows` is a function, equal streams
+  give equal samples (proof is `rw`)                                   same_stream_same_sample_trivial
   size handed to the leaf sampler; one draw per conditioning value     rvsSize_spec, rvsSize_flat_iff,
                                                                        cond_one_draw_per_row
   a leaf that samples by inversion follows its cdf: P(Q(U) ≤ x) = F(x)    inverse_transform_cdf
   … and the rational doubles of the harness are such leaves              ratDouble_galois, ratDouble_follows_cdf
-  PARTIAL (runtime): numpy's stream is i.i.d. uniform, scipy's non-inversion samplers follow
-  their cdf, different seeds differ — validated with DKW bounds at error probability 1e-12.
+  `unbroadcast_constant_draws_once` is a worked instance for two scalar-valued (constant) dependence
+  functions: WITHOUT the broadcast `_get_rvs_size(1, ·)` is the flat size 1 (one draw for all rows, the
+  behaviour before the repair 96752d1), WITH it (`condDrawCount`, the model of the code as it is) N draws.
+  PARTIAL / OBSERVED ONLY (runtime): "the same integer seed or an identically seeded Generator reproduces
+  the sample bit-for-bit" and "different seeds give different samples" are NOT theorems (they are facts
+  about numpy's generators and about how the code threads random_state); they are checked per run on the
+  real code (same int seed, identically seeded Generators, on a second model object, after an earlier draw
+  on the same object, seed pairs s/t, random_state=None draws differ). numpy's stream being i.i.d. uniform
+  and scipy's non-inversion samplers following their cdf are validated with DKW bounds at error
+  probability 1e-12 per comparison.
 -/
 import VirVerif.Lemmas.Hier
 import VirVerif.Model.Sampling
@@ -95,8 +107,33 @@ theorem stream_rows_shape (n d : Nat) (stream : Array α) :
     obtain ⟨_, _, rfl⟩ := hr
     simp
 
-/-- **reproducibility at the level of the logic**: the sample is a function of the stream. -/
-theorem same_stream_same_sample (c : Nat → Option Nat) (Q : Nat → Option α → α → α)
+/-- **the consumed prefix determines the rows**: two streams that agree on the `d·n` values that are
+consumed (`stream[i·n + j]`, `i < d`, `j < n`) give the same per-row uniforms — nothing beyond the first
+`n·n_dim` values of the generator's stream can influence the sample. -/
+theorem stream_prefix_determines_rows (n d : Nat) (s s' : Array α)
+    (h : ∀ k, k < d * n → s[k]? = s'[k]?) : streamToRows n d s = streamToRows n d s' := by
+  unfold streamToRows
+  apply List.map_congr_left
+  intro j hj
+  apply List.map_congr_left
+  intro i hi
+  rw [List.mem_range] at hj hi
+  apply h
+  calc i * n + j < i * n + n := by omega
+    _ = (i + 1) * n := by rw [Nat.add_mul, Nat.one_mul]
+    _ ≤ d * n := Nat.mul_le_mul_right n hi
+
+/-- … and hence the sample (whatever the leaves `Q` and the structure `c`). -/
+theorem stream_prefix_determines_sample (c : Nat → Option Nat) (Q : Nat → Option (Option α) → Option α → Option α)
+    (n d : Nat) (s s' : Array α) (h : ∀ k, k < d * n → s[k]? = s'[k]?) :
+    sampleRows c Q (streamToRows n d s) = sampleRows c Q (streamToRows n d s') := by
+  rw [stream_prefix_determines_rows n d s s' h]
+
+/-- Definitional remark, deliberately named `_trivial`: `sampleRows` is a function, so equal streams give
+equal samples (the proof is `rw`). This says NOTHING about seeds: that the same integer seed / an
+identically seeded Generator yields the same stream and that the code threads it through every dimension
+is observed at runtime (harness oracles `same_seed_reproduces`, `generator_reproduces_*`). -/
+theorem same_stream_same_sample_trivial (c : Nat → Option Nat) (Q : Nat → Option α → α → α)
     (us us' : List (List α)) (h : us = us') : sampleRows c Q us = sampleRows c Q us' := by
   rw [h]
 
@@ -152,8 +189,10 @@ theorem cond_one_draw_per_row (N : Nat) (raw : List ParShape) (hne : raw ≠ [])
   rw [rvsSize_spec 1 _ N init (by rw [hsplit, hl])]
   simp
 
-/-- without the broadcast (the code before the repair) a conditional dimension whose
-dependence functions all return scalars draws ONE value for all rows. -/
+/-- worked instance, two dependence functions that both return a scalar (constant functions): the raw
+parameter list handed to `_get_rvs_size(1, ·)` WITHOUT the broadcast gives the flat size `1` (one value for
+all rows: the behaviour before the repair), whereas `condDrawCount` — the model of the code as it is, which
+broadcasts first — draws `N` values. (Second conjunct = `cond_one_draw_per_row` at `[.scalar, .scalar]`.) -/
 theorem unbroadcast_constant_draws_once (N : Nat) :
     rvsSize 1 [.scalar, .scalar] = .flat 1 ∧ condDrawCount N [.scalar, .scalar] = N := by
   constructor
@@ -235,5 +274,10 @@ example : sampleRows (fun i => if i = 0 then none else some 0)
     (fun _ g p => match g with | none => p | some x => x + p) [[(1 : Int), 2], [5, 7]] = some [[1, 3], [5, 12]] := by
   decide
 example : rvsSize 1 [.scalar, .vector 5] = .matrix 1 5 := by decide
+/-- `stream_prefix_determines_rows` is not vacuous: streams that differ beyond the consumed prefix -/
+example : streamToRows 1 2 #[(1 : Nat), 2, 99] = streamToRows 1 2 #[1, 2, 7] :=
+  stream_prefix_determines_rows 1 2 _ _ (fun k hk => by
+    have : k = 0 ∨ k = 1 := by omega
+    rcases this with rfl | rfl <;> rfl)
 
 end VirVerif.C07
